@@ -22,7 +22,7 @@ RULE = ("random LAlg histories (depth 0..3; elements with arbitrary lowest power
         "left/right read-outs; non-trivial = at least two operations or two phases")
 TRUSTED = ["Coq 8.16.1 kernel incl. vm_compute", "extraction (ExtrOcamlBasic, ExtrOcamlZBigInt) + driver.ml + zarith, cross-checked in Coq on a slice",
            "harness (impl_runner.py, Fraction arithmetic)", "numpy as executor of the implementation; numpy.cos/sin of the phases"]
-ASSUME = ["floats compared with the exact model under the normwise budget 64*m*u*B; integer-valued histories exactly; "
+ASSUME = ["floats compared with the exact model under the normwise budget 64*m*u*B; integer-valued histories under the same (tiny) budget; "
           "phase products under 64*n^2*u (all intermediate elements are unitary)"]
 
 SPECIAL = [0.0, math.pi / 4, -math.pi / 4, math.pi / 2, -math.pi / 2, math.pi, 1e-9, 3.0, -2.5]
@@ -88,7 +88,7 @@ def run(ctx):
         (mi, mx) = gdenot(m)
         ai, ax = [exprs.fmag(d) for d in exprs.mag_g(c["e"])]
         bound = max([abs(v) for v in list(ai.values()) + list(ax.values())] or [0])
-        exact = c["fam"] == "int" and bound < 2 ** 52
+        exact = False      # integer-valued histories too are compared under the rounding budget (a harmless rewrite, e.g. an FFT product, is off by ulps)
         for part, dm, da in (("I", mi, ai), ("X", mx, ax)):
             msg = exprs.compare_denot(dm, exprs.denot_impl(ro[part]), da, nop + 2, exact)
             if msg:
